@@ -76,6 +76,14 @@ mod simd {
     use ::glam_simd as glam;
     include!("suite.rs");
 }
+/// the same checks with `glam-assert` compiled in: none of these operations has a documented precondition, so a
+/// panic there is a failure
+#[cfg(not(feature = "core"))]
+mod asserting {
+    pub const VARIANT: &str = "simd+glam-assert";
+    use ::glam_assert as glam;
+    include!("suite.rs");
+}
 #[cfg(not(feature = "core"))]
 mod scalar {
     pub const VARIANT: &str = "scalar";
@@ -96,6 +104,7 @@ fn main() {
     {
         subs.extend(simd::subs(&args));
         subs.extend(scalar::subs(&args));
+        subs.extend(asserting::subs(&args));
     }
     #[cfg(feature = "core")]
     {
